@@ -416,6 +416,12 @@ impl Deb822 {
         for c in self.0.children_with_tokens() {
             match c.kind() {
                 PARAGRAPH => {
+                    // a paragraph without any text (all its fields were
+                    // removed, or it was added and never filled) prints
+                    // nothing and must not get a separating blank line
+                    if c.as_node().unwrap().text_range().is_empty() {
+                        continue;
+                    }
                     paragraphs.push((
                         current,
                         Paragraph::cast(c.as_node().unwrap().clone()).unwrap(),
